@@ -45,6 +45,8 @@ def load_lib(path):
 def match(exp, obs):
     if exp == "any" or exp == -9 or exp == -8:      # -9: "this value is not constrained" (HElem.Z)
         return True
+    if isinstance(exp, str) and exp.startswith("?"):  # a name of the library's choosing (Attrs: unnamed dimension)
+        return isinstance(obs, str) and obs.startswith("fakeDim")
     if isinstance(exp, list) and isinstance(obs, list):
         return len(exp) == len(obs) and all(match(a, b) for a, b in zip(exp, obs))
     if isinstance(exp, dict) and isinstance(obs, dict):
